@@ -7,6 +7,8 @@ record is well-formed (passes `validate`) and is a dict, and its transition read
 import AutomataVerif.Model.NFAOps
 import AutomataVerif.Proofs.NFATable
 
+open AV.AL
+
 namespace AV
 namespace NFA
 
